@@ -40,6 +40,8 @@ pub struct Profile {
     pub timeouts: Vec<u32>,
     pub faults: bool,
     pub monitors: bool,
+    /// percent of runs with the happens-before / lifetime monitors on (they end a run at their first report)
+    pub p_monitors: u32,
     /// probability (percent) that spin budgets are left as written
     pub p_full_spin: u32,
     pub min_tasks: u8,
@@ -82,6 +84,7 @@ impl Default for Profile {
             timeouts: vec![0, 5, 20, 100],
             faults: true,
             monitors: false,
+            p_monitors: 0,
             p_full_spin: 5,
             min_tasks: 2,
             p_obs_counts: 20,
@@ -92,7 +95,7 @@ impl Default for Profile {
 
 pub fn gen_knobs(rng: &mut Rng, p: &Profile) -> Knobs {
     let mut k = Knobs::default();
-    k.monitors = p.monitors;
+    k.monitors = p.monitors || rng.below(100) < p.p_monitors as u64;
     k.policy = match rng.below(100) {
         0..=39 => PolicyS::Uniform,
         40..=74 => PolicyS::Sticky(*rng.pick(&[4, 6, 7])),
@@ -418,7 +421,13 @@ pub fn profile_for(prop: &str) -> Profile {
     let mut p = Profile::default();
     // the happens-before / lifetime monitors end a run at their first report; they are switched on only in the
     // checks that own those reports, so that every other check sees the consequences for its own property
-    p.monitors = matches!(prop, "C04" | "C07" | "C13" | "C15" | "C17");
+    p.monitors = matches!(prop, "C04" | "C07" | "C17");
+    // checks that own some monitor reports and also consequences that a monitor's early end of the run would hide
+    p.p_monitors = match prop {
+        "C01" | "C03" => 30,
+        "C13" | "C15" => 50,
+        _ => 0,
+    };
     match prop {
         "C01" => {
             p.p_close = 12;
@@ -531,12 +540,14 @@ pub fn profile_for(prop: &str) -> Profile {
             p.p_close = 5;
         }
         "C09" => {
+            p.p_close = 12;
+            p.p_obs_counts = 50;
             p.mixed_flavours = true;
             p.senders = (2, 2);
             p.receivers = (2, 2);
             p.ops = (1, 4);
-            p.p_handle_ops = 15;
-            p.p_observe = 8;
+            p.p_handle_ops = 20;
+            p.p_observe = 15;
         }
         _ => {}
     }
